@@ -4,7 +4,7 @@
   Contents (every theorem for every n; nothing conditional since `C11.inverse_circuit_complete`):
   * canonical form / equality   `canonical_form_preserves_state`, `canonical_form_returns_canon`, `canon_shape_unique`,
                                 `canonical_form_is_normal_form`, `canonical_form_returns_iff_independent`,
-                                `canonical_form_idempotent`, `equality_sound`, `equality_exact`, `equality_is_equivalence`,
+                                `canonical_form_idempotent`, `canonical_form_depends_only_on_state`, `equality_sound`, `equality_exact`, `equality_is_equivalence`,
                                 `sign_matters`, `shape_checker_sound`
   * fidelity, group level       `inner_product_zero_iff`, `inner_product_exponent`, `inner_product_exponent_counts`,
                                 `overlap_dim_unique`, `fidelity_self`, `fidelity_self_returns`, `fidelity_one_iff`,
@@ -26,6 +26,7 @@ import GraphiqModel.Proofs.InvHilbert
 import GraphiqModel.Proofs.InvValid
 import GraphiqModel.Proofs.InnerProductCount
 import GraphiqModel.Proofs.InvClifford
+import GraphiqModel.Proofs.InvGauge
 namespace Graphiq.C05
 open Graphiq Graphiq.PRow Graphiq.STab Graphiq.Tab
 
@@ -151,6 +152,15 @@ theorem canonical_form_is_normal_form : canonical_form_is_normal_form_statement 
   have s : SpanEq ca cb := (s1.symm.trans ⟨hs.1, fun p => (hs.2 p).1, fun p => (hs.2 p).2⟩).trans s2
   exact canon_shape_unique ca cb (canonicalForm_canon a ca h1) (canonicalForm_canon b cb h2) g1 g2
     ⟨s.n_eq, fun p => ⟨s.sub p, s.sup p⟩⟩
+
+/-- **The canonical form depends only on the state — as a value** (every n ≥ 1): two real commuting generating sets of the
+    same signed group get *equal* canonical forms (not only row-wise equal below the size: `canonical_form` returns a
+    tabulated tableau), so everything computed from the canonical form alone — `Stabilizer.__eq__`, `inverse_circuit`,
+    `fidelity` — is a function of the state. -/
+theorem canonical_form_depends_only_on_state (a b ca cb : STab) (ga : a.Good) (gb : b.Good)
+    (hs : a.n = b.n ∧ ∀ p, a.Spn p ↔ b.Spn p) (ha : a.canonicalForm = .ok ca) (hb : b.canonicalForm = .ok cb)
+    (hn : 0 < a.n) : ca = cb :=
+  canonicalForm_eq_of_spanEq a b ca cb ga gb ⟨hs.1, fun p => (hs.2 p).1, fun p => (hs.2 p).2⟩ ha hb hn
 
 /-- **State equality is exact** (every n): for real commuting generating sets on which `canonical_form` returns, the
     canonical forms coincide row by row *iff* the two sets generate the same signed group (soundness `equality_sound` +
